@@ -80,6 +80,41 @@ def single_connection_survives():
         return False, f"{type(e).__name__}: {e}"
 
 
+def terminal_mid_batch(kind):
+    """C16: a subscription ends right after the FIRST terminal event even when later records are already stored
+    (a second adapter of the same run, a late publisher): nothing numbered above the terminal event is delivered."""
+    from llama_agents.client.protocol.serializable_events import EventEnvelopeWithMetadata
+    from llama_agents.server._store.memory_workflow_store import MemoryWorkflowStore
+    from llama_agents.server._store.sqlite.sqlite_workflow_store import SqliteWorkflowStore
+    from workflows.events import Event, StopEvent
+
+    async def go():
+        if kind == "sqlite":
+            d = tempfile.mkdtemp(prefix="verif_sq_")
+            store = SqliteWorkflowStore(os.path.join(d, "db.sqlite"), poll_interval=0.05)
+        else:
+            store = MemoryWorkflowStore()
+        for ev in (Event(n=0), Event(n=1), StopEvent(result="done"), Event(n=3)):
+            await store.append_event("run-1", EventEnvelopeWithMetadata.from_event(ev))
+        seen = []
+
+        async def drain():
+            async for rec in store.subscribe_events("run-1", after_sequence=-1):
+                seen.append(rec.sequence)
+
+        try:
+            await asyncio.wait_for(drain(), timeout=2.0)
+            finished = True
+        except asyncio.TimeoutError:
+            finished = False
+        return finished and seen == [0, 1, 2], f"delivered {seen}, finished={finished}"
+
+    try:
+        return asyncio.run(go())
+    except Exception as e:  # noqa
+        return False, f"{type(e).__name__}: {e}"
+
+
 def main(argv):
     which = argv[0]
     if which == "lost_update_sqlite":
@@ -92,6 +127,8 @@ def main(argv):
         ok, final = asyncio.run(two_edits(_mem_store()))
     elif which == "single_connection":
         ok, final = single_connection_survives()
+    elif which in ("terminal_mid_batch_sqlite", "terminal_mid_batch_memory"):
+        ok, final = terminal_mid_batch(which.rsplit("_", 1)[1])
     else:
         print("unknown scenario")
         return 3
